@@ -776,6 +776,10 @@ pub trait Subject<K: KeyLike>: Cache<K, TVal> + Sized {
     fn try_clone(&self) -> Option<Self> {
         None
     }
+    /// `Clone::clone_from` (true when the type is Clone)
+    fn try_clone_from(&mut self, _src: &Self) -> bool {
+        false
+    }
 }
 
 type Lru<K, S> = RawLRU<K, TVal, LogCb, S>;
@@ -846,6 +850,10 @@ impl<K: KeyLike, E: CbM, S: HB> Subject<K> for LruG<K, E, S> {
     }
     fn try_clone(&self) -> Option<Self> {
         Some(self.clone())
+    }
+    fn try_clone_from(&mut self, src: &Self) -> bool {
+        self.clone_from(src);
+        true
     }
     fn extra(&mut self, op: &Op, nv: u64) -> Res {
         match *op {
@@ -952,6 +960,10 @@ impl<K: KeyLike, S: HB> Subject<K> for Slru<K, S> {
     }
     fn try_clone(&self) -> Option<Self> {
         Some(self.clone())
+    }
+    fn try_clone_from(&mut self, src: &Self) -> bool {
+        self.clone_from(src);
+        true
     }
     fn extra(&mut self, op: &Op, nv: u64) -> Res {
         match *op {
@@ -1220,6 +1232,10 @@ impl<K: KeyLike, KH: KHM<K>, S: HB> Subject<K> for WtG<K, KH, S> {
     fn try_clone(&self) -> Option<Self> {
         Some(self.clone())
     }
+    fn try_clone_from(&mut self, src: &Self) -> bool {
+        self.clone_from(src);
+        true
+    }
     fn extra(&mut self, op: &Op, _nv: u64) -> Res {
         match *op {
             Op::SegLens => Res::Lens(vec![
@@ -1300,8 +1316,13 @@ pub trait DynSubject {
     fn est_cleared(&self) -> Option<EstDigest>;
     fn reseed(&mut self, seeds: [u64; 4]);
     fn clone_box(&self) -> Result<Option<Box<dyn DynSubject>>, String>;
+    fn as_any(&self) -> &dyn std::any::Any;
+    /// `self.clone_from(src)`; Ok(false) when the type is not Clone or `src` is another type
+    fn clone_from_dyn(&mut self, src: &dyn DynSubject) -> Result<bool, String>;
     /// keys of every list as the *public* iterators report them (types that have iterators)
     fn public_keys(&mut self) -> Option<Vec<Vec<u32>>>;
+    /// (key, value) pairs of every list as the public entry iterators report them
+    fn public_items(&mut self) -> Option<Vec<Vec<(u32, u64)>>>;
     /// everything reachable through well-formed lists, ignoring the audit verdict of the
     /// others (used after injected panics): (key object id, value object id, key)
     fn reachable(&self) -> Vec<(u64, u64, u32)>;
@@ -1403,6 +1424,21 @@ impl<K: KeyLike, C: Subject<K> + 'static> DynSubject for Wrap<K, C> {
         crate::talloc::in_lib(false);
         Ok(r?.map(|c| Box::new(Wrap::<K, C>(c, PhantomData)) as Box<dyn DynSubject>))
     }
+    fn as_any(&self) -> &dyn std::any::Any {
+        self
+    }
+    fn clone_from_dyn(&mut self, src: &dyn DynSubject) -> Result<bool, String> {
+        let src = match src.as_any().downcast_ref::<Wrap<K, C>>() {
+            Some(s) => s,
+            None => return Ok(false),
+        };
+        #[cfg(feature = "talloc")]
+        crate::talloc::in_lib(true);
+        let r = guarded(|| self.0.try_clone_from(&src.0));
+        #[cfg(feature = "talloc")]
+        crate::talloc::in_lib(false);
+        r
+    }
     fn public_keys(&mut self) -> Option<Vec<Vec<u32>>> {
         if !matches!(C::KIND, Kind::Lru | Kind::TwoQ | Kind::Arc) {
             return None;
@@ -1412,6 +1448,20 @@ impl<K: KeyLike, C: Subject<K> + 'static> DynSubject for Wrap<K, C> {
             let spec = IterSpec { list: li as u8, fam: Fam::Keys, steps: 64, pat: 0, write: false, clone_at: 255, fin: 0 };
             match self.exec(&Op::Iter(spec), 0) {
                 Res::Iter(t) => out.push(t.steps.iter().filter_map(|s| s.item.and_then(|i| i.0)).collect()),
+                _ => return None,
+            }
+        }
+        Some(out)
+    }
+    fn public_items(&mut self) -> Option<Vec<Vec<(u32, u64)>>> {
+        if !matches!(C::KIND, Kind::Lru | Kind::TwoQ | Kind::Arc) {
+            return None;
+        }
+        let mut out = vec![];
+        for li in 0..C::KIND.list_names().len() {
+            let spec = IterSpec { list: li as u8, fam: Fam::Iter, steps: 64, pat: 0, write: false, clone_at: 255, fin: 0 };
+            match self.exec(&Op::Iter(spec), 0) {
+                Res::Iter(t) => out.push(t.steps.iter().filter_map(|s| s.item.and_then(|i| Some((i.0?, i.1?)))).collect()),
                 _ => return None,
             }
         }
